@@ -5,7 +5,7 @@ use crate::engine::{guard, Obs, Property, Tier};
 use crate::gen::{scene_strategy, xf_strategy, Scene};
 use crate::refgeom::de9im::de9im_info;
 use crate::refgeom::validity::in_relate_domain;
-use crate::refgeom::{Matrix, G};
+use crate::refgeom::{Matrix, Poly, G};
 use crate::with_concrete;
 use geo::relate::PreparedGeometry;
 use geo::{Geometry, Relate};
@@ -177,8 +177,38 @@ impl Property for C17 {
     fn strategy(tier: Tier) -> BoxedStrategy<Case> {
         let maxp = tier.pick(4, 6);
         let maxs = tier.pick(8usize, 12usize);
+        // 1 scene in 8 from a template: a polygon whose hole touches the shell in the MIDDLE of a shell edge (the touch vertex at a
+        // varying position of the hole ring), or two multipolygon members touching that way, with partners that run through the
+        // touch point (from outside the shell into the hole, along the touched edge, ending there) - self-noding adds a boundary
+        // node there that exists in no ring's vertex list of the touched ring
+        let template = (2i64..7, 1i64..4, 1i64..4, 0usize..3, any::<bool>(), proptest::collection::vec((-3i64..4, -3i64..4, 0u8..4), 1..4)).prop_map(|(t, w, h, rot, multi, ps)| {
+            let shell = vec![(0, 0), (8, 0), (8, 8), (0, 8), (0, 0)];
+            // hole (or second member, below the edge): a triangle with one vertex at (t, 0)
+            let mut tri = vec![(t, 0), ((t + w).min(7), h + 1), ((t - w).max(1), h + 1)];
+            if multi {
+                tri = vec![(t, 0), (t - w, -h - 1), (t + w, -h - 1)];
+            }
+            tri.rotate_left(rot % 3);
+            let first = tri[0];
+            tri.push(first);
+            let a = if multi { G::MultiPolygon(vec![Poly::new(shell, vec![]), Poly::new(tri, vec![])]) } else { G::Polygon(Poly::new(shell, vec![tri])) };
+            let partners: Vec<G> = ps
+                .iter()
+                .map(|(dx, dy, k)| {
+                    let d = if (*dx, *dy) == (0, 0) { (0, 1) } else { (*dx, *dy) };
+                    match k {
+                        0 => G::Line((t - d.0, -d.1), (t + d.0, d.1)),
+                        1 => G::LineString(vec![(t - d.0, -d.1.abs() - 1), (t, 0), (t + d.1, d.0.abs() + 1)]),
+                        2 => G::Line((t, 0), (t + d.0, d.1)),
+                        _ => G::LineString(vec![(t - 2, 0), (t + 1, 0), (t + 1, d.1)]),
+                    }
+                })
+                .filter(|g| in_relate_domain(g))
+                .collect();
+            Scene { a, partners }
+        });
         (
-            scene_strategy(maxp),
+            prop_oneof![7 => scene_strategy(maxp).boxed(), 1 => template.prop_filter("no partner", |s| !s.partners.is_empty()).boxed()],
             proptest::collection::vec((any::<u8>(), 0u8..7, 0u8..3).prop_map(|(partner, mode, reps)| Step { partner, mode, reps }), 1..=maxs),
             xf_strategy(),
             any::<bool>(),
